@@ -251,6 +251,32 @@ def macro_libraries(ctx, root, decoy, leg):
                 good = False; break
         if good:
             ctx.count("macro_library_histories"); ctx.nontriv("ml|%s|%s|%s" % (mode, "/".join(order), second))
+    # two healthy libraries that both RE-EXPORT a binding of a dependency they share (and a prelude that re-exports car next to (scheme base)), named in ONE
+    # declaration: the same binding reached along two paths - the import succeeds
+    rex = {"rb": "(define-library (g rb) (import (scheme base)) (export vrb rbf) (begin (define vrb 1) (define (rbf) 2)))",
+           "rx": "(define-library (g rx) (import (scheme base) (g rb)) (export vrb vrx rbf) (begin (define vrx (+ vrb 10))))",
+           "ry": "(define-library (g ry) (import (g rb) (scheme base)) (export vrb vry (rename rbf ryf)) (begin (define vry (+ vrb 20))))",
+           "pre": "(define-library (g pre) (import (scheme base)) (export car cdr vpre) (begin (define vpre 3)))"}
+    for n, src in rex.items():
+        open(os.path.join(d, "g", n + ".sld"), "w").write(src + "\n")
+    decls = ["(import (g rx) (g ry))", "(import (g ry) (g rx) (g rb))", "(import (scheme base) (g pre))", "(import (g pre) (scheme base) (g rx) (g ry))", "(import (only (g rx) vrb) (prefix (g ry) y-) (g rb))"]
+    jobs, meta = [], []
+    for mode in ("file", "registered"):
+        spec = {"stdlib": False, "natives": False, "progdir": d} if mode == "file" else \
+               {"stdlib": False, "natives": False, "progdir": os.path.join(root, "empty"), "libs": [{"name": ["g", n], "src": rex[n]} for n in rex]}
+        for decl in decls:
+            jobs.append({"id": "c14x", "interps": [spec], "steps": [{"src": decl}, {"src": "vrb" if "(g r" in decl else "vpre"}], "fuel": 50000}); meta.append((mode, decl))
+    recs = core.run_jobs(jobs, leg, timeout=600, tag="c14x", env_extra={"__cwd": decoy})
+    for (mode, decl), rec in zip(meta, recs):
+        if rec is None or "steps" not in rec:
+            ctx.inconclusive_cases += 1; continue
+        ctx.evaluations += 1
+        (k0, v0), (k1, v1) = core.outcome(rec["steps"][0]), core.outcome(rec["steps"][1])
+        if k0 != "ok" or k1 != "ok" or v1 != {"i": 1 if "(g r" in decl else 3}:
+            ctx.violation({"what": "a declaration naming two healthy libraries that re-export the same binding of a shared dependency did not import", "kind": "shared-re-export", "mode": mode,
+                           "declaration": decl, "import_outcome": v0 if k0 != "ok" else "ok", "value": v1, "dedupe": "rex|%s|%s" % (mode, k0)}, {"mode": mode, "declaration": decl})
+        else:
+            ctx.count("shared_re_export_declarations")
     ctx.legs.append("macro-libraries")
 
 
